@@ -391,6 +391,13 @@ static int d_typename(fx_t *F, int v, dv_t *o)
     n = dvp(o, n, "", X_FAIL, 0, "empty");
     n = dvp(o, n, "X9", X_FAIL, 0, "X9");
     n = dvp(o, n, "T88", X_FAIL, 0, "T88");
+    /* near misses of the names that share a stem */
+    n = dvp(o, n, "UE1", X_FAIL, 0, "UE1");
+    n = dvp(o, n, "UE13", X_FAIL, 0, "UE13");
+    n = dvp(o, n, "UE104", X_FAIL, 0, "UE104");
+    n = dvp(o, n, "TE1", X_FAIL, 0, "TE1");
+    n = dvp(o, n, "U1", X_FAIL, 0, "U1");
+    n = dvp(o, n, "E1", X_FAIL, 0, "E1");
     return n;
 }
 static int d_calname(fx_t *F, int v, dv_t *o)
@@ -666,6 +673,13 @@ static int d_format(fx_t *F, int v, dv_t *o)
     n = dvp(o, n, "Q", X_FAIL, 0, "unknown-letter");
     n = dvp(o, n, "Sxx", X_FAIL, 0, "unknown-coordinates");
     n = dvp(o, n, "Sri,,Zri", X_FAIL, 0, "empty-member");
+    /* text after a complete specifier */
+    n = dvp(o, n, "vswrx", X_FAIL, 0, "vswr-trailing");
+    n = dvp(o, n, "ilx", X_FAIL, 0, "il-trailing");
+    n = dvp(o, n, "Sri,rlq", X_FAIL, 0, "rl-trailing");
+    n = dvp(o, n, "prcl", X_FAIL, 0, "prc-trailing");
+    n = dvp(o, n, "zinmax", X_FAIL, 0, "zinma-trailing");
+    n = dvp(o, n, "zindb", X_FAIL, 0, "zindb");
     return n;
 }
 static int d_vdloadpath(fx_t *F, int v, dv_t *o)
